@@ -343,12 +343,12 @@ theorem environ_view_reflects (env : Env) (key v : Str) :
     have : PyDict.get? (PyDict.erase env (envName key)) (envName key) = none := by
       unfold PyDict.get?
       rw [erase_eq_filter env _ hn]
-      have hnot : envName key ∉ PyDict.keys (env.filter fun e => !(e.1 == envName key)) := by
-        simp only [PyDict.keys, List.mem_map, List.mem_filter]
-        rintro ⟨e, ⟨_, he⟩, heq⟩
-        simp [heq] at he
-      have := (mem_keys_iff_lookup _ _).not.1 hnot
-      exact Option.not_isSome_iff_eq_none.1 this
+      apply Option.not_isSome_iff_eq_none.1
+      intro h
+      have hm := (mem_keys_iff_lookup _ _).2 h
+      simp only [PyDict.keys, List.mem_map, List.mem_filter] at hm
+      obtain ⟨e, ⟨_, he⟩, heq⟩ := hm
+      simp [heq] at he
     rw [this]
 
 end Environ
